@@ -52,6 +52,12 @@ def _init(modname, seed):
     global _MOD, _SEED
     import warnings
     warnings.filterwarnings('ignore')
+    try:   # a runaway case must fail loudly (MemoryError in that case) instead of getting the worker OOM-killed
+        import resource
+        lim = int(float(os.environ.get('VERIF_WORKER_MEM_GB', '6')) * 2 ** 30)
+        resource.setrlimit(resource.RLIMIT_AS, (lim, lim))
+    except Exception:
+        pass
     _MOD = importlib.import_module(modname)
     _SEED = seed
 
@@ -172,19 +178,37 @@ def main(argv=None):
                 total_generated += len(c)
                 yield c
         feeder.last = None
-        if a.jobs <= 1:
-            _init(modname, seed)
-            results = map(_work, feeder())
-            pool = None
-        else:
-            pool = ctx.Pool(a.jobs, initializer=_init, initargs=(modname, seed))
-            results = pool.imap_unordered(_work, feeder())
-        for out in results:
-            n += out['n']; checks += out['checks']; skipped += out['skipped']
-            nt |= out['nt']; outcomes.update(out['outcomes']); extra.update(out['extra'])
-            fails.extend(out['fails'])
-        if pool:
-            pool.close(); pool.join()
+        def results():
+            if a.jobs <= 1:
+                _init(modname, seed)
+                for c in feeder():
+                    yield _work(c)
+                return
+            # bounded window of futures; a worker that dies abruptly raises BrokenProcessPool instead of hanging
+            import concurrent.futures as cf
+            with cf.ProcessPoolExecutor(a.jobs, mp_context=ctx, initializer=_init, initargs=(modname, seed)) as ex:
+                pending = set()
+                it = feeder()
+                done_feeding = False
+                while True:
+                    while not done_feeding and len(pending) < 4 * a.jobs:
+                        try:
+                            pending.add(ex.submit(_work, next(it)))
+                        except StopIteration:
+                            done_feeding = True
+                    if not pending:
+                        break
+                    done, pending = cf.wait(pending, return_when=cf.FIRST_COMPLETED)
+                    for f in done:
+                        yield f.result()
+        try:
+            for out in results():
+                n += out['n']; checks += out['checks']; skipped += out['skipped']
+                nt |= out['nt']; outcomes.update(out['outcomes']); extra.update(out['extra'])
+                fails.extend(out['fails'])
+        except Exception as e:
+            print('ERROR worker pool failed (%r): the run is incomplete and nothing it found is reported as a verdict' % (e,))
+            return 2
         if feeder.last is not None:
             samples.append(feeder.last)
         coverage = {
